@@ -1566,3 +1566,9 @@ package zygo
 //@ C02 assert let-values-in-source-order @before call Generate[1]: arg0 == gen && nInit < len(rstatements) && arg1 == rstatements[nInit]
 //@ ghost nInit := nInit + 1 @after call Generate[1]
 //@ C02 loop 2 invariant nInit == rangeindex + 1
+
+// C06: translating a block does not edit the block's own tokens (a nested block used as an
+// operand is translated again every time the enclosing call runs, and must read the same)
+//@ func splitColonTailSelectorSymbols
+//@ C06 preserves SexpSymbol.colonTail
+//@ C06 preserves SexpSymbol.name
